@@ -2,6 +2,7 @@
 #define __HY_DATA_DATEUTILS__
 
 #include <math.h>
+#include <limits.h>
 #include <stdlib.h>
 #include <stdio.h>
 #include <string.h>
